@@ -258,7 +258,9 @@ class C07Clocks(Oracle):
         if not scope_change and rid == self.prev_rid:
             for n in ("Block Time", "Scope Time"):
                 d = cur[n] - self.prev[n]
-                if d > EPS and self.prev_state != "Running":
+                if d > EPS and self.prev_state not in ("Running", "Restarting"):
+                    # (a tick entered in Restarting is the old run winding down; the statement's clause is about
+                    # Paused and Holding, and the clocks are reset when the new run starts)
                     why = self.prev_state
                     if self.prev_state == "Paused" and self.prev_err:
                         why = "ErrorPaused"
@@ -368,6 +370,8 @@ class C08SafeOutputs(Oracle):
         self.stopped_ticks = 0
         self.pause_cmd_writes: set[str] = set()
         self.cmd_pos = 0
+        self.restart_in_flight = 0
+        self.ev_pos_c08 = 0
 
     def before_request(self, kind, msg):
         if kind == "inject" and self.w.state == "Paused":
@@ -384,6 +388,16 @@ class C08SafeOutputs(Oracle):
         self.wl_pos = len(w.hw.write_log)
         err = w.engine.has_error_state()
         self.stopped_ticks = self.stopped_ticks + 1 if st == "Stopped" else 0
+        # a Restart passes through Stopped without being a Stop; it may stay there a tick longer when another command
+        # fails in the tick in which it would finish (the failure ends that tick's command phase). Until the new run
+        # has started the Stopped state belongs to the Restart
+        if st == "Restarting":
+            self.restart_in_flight = 6
+        elif any(e[1] == "start" for e in w.events[self.ev_pos_c08:]):
+            self.restart_in_flight = 0
+        elif self.restart_in_flight > 0:
+            self.restart_in_flight -= 1
+        self.ev_pos_c08 = len(w.events)
         for ev in w.plog.events[self.cmd_pos:]:
             if ev[1] == "exec" and st == "Paused":
                 self.pause_cmd_writes |= {"Set1": {"OUT1"}, "Ramp": {"OUT1"}, "Valve": {"OUT2"}}.get(ev[2], set())
@@ -395,7 +409,7 @@ class C08SafeOutputs(Oracle):
                     self.v("C08", "C08.unsafe_write_while_no_run", name, f"wrote {name}={val!r} while Stopped")
         # "after every Stop": Restart passes through Stopped for one tick and is not a Stop, so the state has to
         # persist for a second tick before it is judged (a Stop that never writes safe values stays unsafe)
-        if st == "Stopped" and (self.phase == "boot" or self.stopped_ticks >= 2):
+        if st == "Stopped" and (self.phase == "boot" or self.stopped_ticks >= 2) and not self.restart_in_flight:
             kind = "C08.not_safe_before_first_run" if self.phase == "boot" else "C08.not_safe_after_stop"
             for name, sv in SAFE_HW.items():
                 if mem.get(name) != sv:
